@@ -366,7 +366,7 @@ def size_form_by_evaluation(ctx, f):
     try:
         for key, item in (('P', Parsable()), ('E', Coded()), ('S', 'abcd')):
             try:
-                got[key] = Evaluator({'self': Param(), params[0]: item}, hook, None).function(f.node)
+                got[key] = Evaluator({'self': Param(), params[0]: item}, hook, hook.name_hook_for(f.module, None)).function(f.node)
             except Raised:
                 got[key] = 'err'
             except (AttributeError, TypeError):
